@@ -254,6 +254,28 @@ def run(ck, facts, tier):
         else:
             ck.violation(R, "aggregate_name_and_substs", ns.where(), "must be `names differ || zip(..).any(aggregate_generic_args)`")
 
+    # ------------------------------------------------------------------ MAY-DISJUNCTIVE
+    R = "C17.MAY-DISJUNCTIVE"
+    ck.rule(R, "K10 (symbolic evaluation): every MayInvalidate function answers `true` as soon as ONE of the component tests it makes "
+               "(a `!=`, a nested aggregate_* call, an `.any(..)` over parameters) says the components may differ, whatever the other "
+               "tests say - the result is a disjunction of the component results.  A conjunction, a negated test or an early "
+               "`return false` would let make_solution call guidance final that a pending answer still changes")
+    from kit import may_differ_disjunctive, user_block
+    n = 0
+    for key, b in sorted(facts.bodies("chalk_engine").items()):
+        if not (key.startswith(MI + "::") and "{" not in key):
+            continue
+        if b.d.get("ret") != "bool":
+            continue
+        th = user_block(facts.thir(key))
+        fn = key.split("::")[-1]
+        n += may_differ_disjunctive(
+            ck, R, "MayInvalidate::" + fn, b.where, th,
+            lambda name: name.startswith("aggregate_") or name == "any",
+            lambda a: (a.get("k") == "bin" and "%s%s%s" % (var_name(a["l"]) or "?", "!=" if a["op"] == "Ne" else "==", var_name(a["r"]) or "?"))
+            or str((a.get("fn") or a.get("res") or a.get("k"))).split("::")[-1])
+    ck.floor(R, "component-tests", n, 30)
+
     # ------------------------------------------------------------------ LEAF-EQUALITY
     R = "C17.LEAF-EQUALITY"
     ck.rule(R, "K1: inside AntiUnifier and MayInvalidate an identity test that decides whether a non-term component (name, placeholder "
